@@ -6,7 +6,7 @@ from . import mirror
 
 PID = "C01"
 META = {
-    "explanation": "Static analysis of the writer/reader bookkeeping on the compiler's MIR of the current tree (default and all-features builds): entry count incremented once per insert and plumbed to trailer and Reader::len (R1), codec plumbing on both sides (R2), codec dispatch tables and from_u8 on all 256 ids (R3), every block write paired with a parent index entry whose offset is read before the write (R4), finish order with the trailer last (R5), depth arithmetic (R6), mirror agreement of forward/backward twins (R7), pending non-empty block always flushed (R8). These are necessary conditions of an exact round trip; byte equality through the codec crates is not decided. (R11) the entry frame written by BlockWriter::insert agrees with the regions Block::entry_at reads, and every end-of-payload test of entry_at, in linear form over the frame's fields, can only reject malformed data.",
+    "explanation": "Static analysis of the writer/reader bookkeeping on the compiler's MIR of the current tree (default and all-features builds): entry count incremented once per insert and plumbed to trailer and Reader::len (R1), codec plumbing on both sides (R2), codec dispatch tables and from_u8 on all 256 ids (R3), every block write paired with a parent index entry whose offset is read before the write (R4), finish order with the trailer last (R5), depth arithmetic (R6), mirror agreement of forward/backward twins (R7), pending non-empty block always flushed (R8). These are necessary conditions of an exact round trip; byte equality through the codec crates is not decided. (R11) the entry frame written by BlockWriter::insert agrees with the regions Block::entry_at reads, and every end-of-payload test of entry_at, in linear form over the frame's fields, can only reject malformed data. Also the varint tables and the remaining file-wellformedness rules shared through rules/shared.py.",
     "assumptions": ["the codec crates return the bytes they were given", "std Vec/slice/Option semantics"],
 }
 
@@ -161,6 +161,8 @@ def run(ck):
         from .c11 import r2_count_accepted, r1_write_all
         ck.guard("C01-R10", r2_count_accepted, ck, F, "C01-R10")
         ck.guard("C01-R10", r1_write_all, ck, F, "C01-R10")
+        from . import shared
+        shared.file_wellformed(ck, F, "C01-R13")
     from . import fixtures
     ck.guard("C01-R9", fixtures.run, ck, "C01")
     ck.trusted += ["rustc MIR construction", "the codec crates (snap, flate2, lz4_flex, zstd): block bytes in = block bytes out", "std Vec/slice semantics (last_mut, split_last_mut)"]
